@@ -7,6 +7,12 @@ CHECKS = {
  "C01": ("exploration", "reference-model monitor (maximal-live-candidate versioned map) over resolver calls on enumerated DAG shapes x placements and over recorded HTTP histories",
          "Every DAG shape with <=5 nodes (all ordered merge-parent lists) x every value/tombstone/nothing placement x every queried node is executed against the real resolver (exhaustive slice), larger DAGs and real put/delete/commit/branch/merge HTTP histories are sampled; the oracle is order-free so entry order and parent order are covered by shuffling/permutation.",
          "Trusts the 40-line reference model in harness/internal/dvc/dag.go; DAGs >10 nodes and >4 merge parents are not explored; Badger itself is trusted.", "3/C01"),
+ "C02": ("exploration", "self-calibrating gate differential (open vs committed version, same request) + store write auditor + read-stability snapshots",
+         "Every catalogued well-formed mutation and every endpoint keyword found in the data type packages is sent with POST/PUT/DELETE to a fresh open version and to a committed version holding identical data, in default, admin-token, full-write, read-only and after-read-only-toggle modes; the committed version must read back unchanged, no store write or log append may carry its version id, real mutations must be refused, child creation must stay allowed; mixed histories re-read every committed version against its commit-time snapshot after later operations and a restart.",
+         "Instance-wide settings (info, extents, sync, tags, next-label counter) are excluded as unversioned; endpoints needing external services are not driven; payloads for scanned keywords without a catalogue entry are generic.", "3/C02"),
+ "C03": ("exploration", "differential monitor: full observable snapshot of one OS process vs a fresh process on the same stores",
+         "Mixed histories over all modelled data types are stopped while idle (clean shutdown, abrupt exit, SIGKILL; 1-4 restarts each; label-cache / mutation-cache configuration matrix) and every repo/node/instance JSON, branch resolution and every data read endpoint at every version is compared before/after; the history then continues on the restarted server.",
+         "JSON compared as multisets, errors by status; Updated stamps and the mutation-id counters (>=) excluded as the statement allows; RLE span order canonicalised because it varies between two calls of one process.", "3/C03"),
  "C04": ("fault_enumeration", "crash injection at every store write / log append through wrapping engines + reference-snapshot comparison after restart; byte-level tearing of append-only logs against a reference framing parser",
          "A deterministic mixed workload is censused (every write numbered, reference snapshot after every operation); the server is then killed before write N for every N (sampled stride in quick, all in thorough, plus 'after' at operation boundaries and a second crash at every write of the recovery start-up for a sample); after restart the repo metadata must satisfy the C07 invariants, everything the interrupted operation cannot touch must equal the acknowledged prefix, atomic repo-level/single-key operations must be all-or-nothing, and the server must be usable. Log files are truncated at every byte offset of their tail records and read through the real filelog store.",
          "Process death (SIGKILL), not power loss; crash granularity is the store-call boundary (Badger's own commit is trusted); 'cannot touch' = other instances/sync groups and other versions than the open leaf the request addressed.", "3/C04"),
@@ -16,6 +22,9 @@ CHECKS = {
  "C12": ("fault_enumeration", "offline checker over the recorded id event log (uniqueness, real-time-order monotonicity by interval sweep, freshness) + crash injection before every write of an allocation script",
          "Ids are taken from acknowledged responses (MutationID, CleavedLabel, Split/RemainSupervoxel, nextlabel ranges), VersionIDs from repo JSON, repo/instance ids from the store write log; histories mix allocations with ingests of arbitrary large labels, 3-8-way concurrent allocation phases, restarts and a crash before every store write of an allocation script that crosses the mutation-id persistence stride.",
          "Concurrent stamps come from the worker's monotonic clock around ServeSingleHTTP; an allocation racing an unsettled ingest is counted, not judged.", "3/C12"),
+ "C16": ("exploration", "differential monitor (in-memory head vs store-backed committed parent vs restarted process) + metamorphic update rules",
+         "Scripted minimal scenarios and random POST/DELETE/schema sequences; after every step a commit+newversion pair holding identical data is read through 32 endpoint forms on both paths and across clean/abrupt/SIGKILL restarts; the three update rules of the statement are checked on every update.",
+         "Endpoints that promise no order are compared as multisets; fieldtimes only across restarts (the store path does not serve it); deliberately no re-implementation of updateJSON.", "3/C16"),
  "C17": ("exploration", "reference-model monitor (sparse per-version block model) over recorded write/read histories on every imageblk voxel type",
          "Unique voxel contents per (write, block, voxel) are written (ingest, mutate, ROI-restricted, POST blocks) at block coordinates in [-3,3]^3 over several versions and read back through 3-D boxes of every alignment class, 2-D PNG slices in three planes, blocks/subvolblocks/specificblocks streams and advertised extents.",
          "Lossy or compressed stream formats (jpeg, lz4) are not decoded; ROI always has the instance's block size.", "3/C17"),
